@@ -112,6 +112,10 @@ def check(run, prog, tier):
     run.rule("C08-L", "apply() at several times: the string 'all' is not dereferenced as an axis; a list of times is used as "
                       "a whole, not through its first two entries", minimum=2)
     rule_L(run, prog, cls)
+    run.rule("C08-M", "the grid point found for a requested time does not depend on where the time axis starts: the look-ups of "
+                      "ValueAxis use its points through differences only (affine typing)", minimum=3)
+    from . import handout
+    handout.check_axis_lookup(run, "C08-M", prog)
 
 
 
